@@ -1,2 +1,3 @@
+pub mod c01;
 pub mod c17;
 pub mod c18;
